@@ -174,7 +174,9 @@ theorem C10_landed_def (l : FLink F) (pkt : List UInt8) (seq : Option Nat) (now 
           wire = (l.queue ++ [(pkt, seq, now)]).map (fun it => (l.core.connId, it.1))) ∨
        (l.regime.batchSize ≤ (l.queue ++ [(pkt, seq, now)]).length ∧ failNext.contains l.core.connId = true ∧
           l'.queue = [] ∧ l'.core.window = 20000 ∧ l'.core.connected = false ∧ l'.core.cong = l.core.cong ∧
-          wire = [])) := Iff.rfl
+          -- a failed send puts a PREFIX of the batch on the wire (none of it for a plain `failNext` injection,
+          -- the first `min k len` datagrams for `failAfter cid k`), the rest is lost
+          ∃ k, wire = ((l.queue ++ [(pkt, seq, now)]).take k).map (fun it => (l.core.connId, it.1)))) := Iff.rfl
 
 /-- **Non-interference.**  Two systems (classic, guard off, registered) whose links agree on
 `(connected, phase, window, in_flight, queue length, last_received, established, grace deadline)`
@@ -1102,6 +1104,7 @@ def LockStep (s : Sys F) : Ev → Prop
   | .setCfg cfg => windowsOf (step s (.setCfg cfg)).1 = windowsOf s
   | .crit d => windowsOf (step s (.crit d)).1 = windowsOf s
   | .failNext c => windowsOf (step s (.failNext c)).1 = windowsOf s
+  | .failAfter c kfa => windowsOf (step s (.failAfter c kfa)).1 = windowsOf s
   -- injecting a socket re-creation failure is no reference event and moves no window; the tick that
   -- consumes it tears the link down like any other reconnect attempt (a `linkReset` in the `.hk` clause)
   | .failBind c => windowsOf (step s (.failBind c)).1 = windowsOf s
@@ -1193,6 +1196,7 @@ theorem C10_lockstep_step (B : Nat) (s : Sys F) (e : Ev) (h : RunInv B s) (hB : 
   | setCfg cfg => rfl
   | crit d => rfl
   | failNext c => rfl
+  | failAfter c kfa => rfl
   | failBind c => rfl
   | stamp idx w ld cb ct => exact stamp_abs s idx w ld cb ct
   | syncTimeout => exact sync_abs s
